@@ -88,6 +88,11 @@ def main():
         for k in ("at_diff", "at4_diff", "a4_diff"):
             if not (d[k] <= 1e-12 * max(d["aint_max"], d["maxabs"], 1e-300)):
                 return "%s = %.3g: the overload differs from the plain distributed product (max |A u| = %.3g) on %d processes" % (k, d[k], d["aint_max"], n)
+        # synchronisation routes of Global::Vector (sync_1 / sync_1_async / from_1_to_0 + sync_0 / + sync_0_async) and async scalars
+        if not (d["sync_route_err"] <= 1e-13 * max(d["maxabs"], 1e-300)):
+            return "sync_1 / sync_1_async / from_1_to_0+sync_0(_async) disagree (or change a consistent vector) by %.3g (max |v| = %.3g) on %d processes" % (d["sync_route_err"], d["maxabs"], n)
+        if not (d["sync_scalar_err"] <= 1e-13):
+            return "dot_async / norm2_async / norm2sqr_async differ from the blocking calls (rel. %.3g) on %d processes" % (d["sync_scalar_err"], n)
         # blocked type-1 matrix == scalar type-1 matrix (x) B
         if not (d["blk_t1_err"] <= 1e-13 * max(d["t1_max"], 1e-300)):
             return "blocked convert_to_1 differs from the scalar type-1 matrix (x) B by %.3g (max entry %.3g) on %d processes" % (d["blk_t1_err"], d["t1_max"], n)
